@@ -608,7 +608,8 @@ def _execute(scn, ctx, rng, collect_results):
         # one catalog object per observed catalog, re-bound to the region of the forecast it is evaluated against
         c = shared_cats.get(oi_)
         if c is None:
-            c = build.make_catalog(scn['obs'][oi_]['events'], region=fcs[k].region, name='obs')
+            c = build.make_catalog(scn['obs'][oi_]['events'], region=fcs[k].region, name='obs',
+                                   as_array=(scn.get('initial_rng', 0) + oi_) % 3 == 0)
             shared_cats[oi_] = c
         c.region = fcs[k].region
         return c
